@@ -94,7 +94,7 @@ int EGLPNUM_TYPENAME_ILLis_lp_name_char (
 					(('A' <= c) && (c <= 'Z')) ||
 					((pos > 0) && ('0' <= c) && (c <= '9')) ||
 					((pos > 0) && (c == '.')) ||
-					(strchr ("!\"#$%&()/,;?@_`'{}|~", c) != NULL));
+					((c != '\0') && (strchr ("!\"#$%&()/,;?@_`'{}|~", c) != NULL)));
 }
 
 
